@@ -62,6 +62,30 @@ ViewsAgreeAt(abs, par, i) ==
 
 BadViews(abs, par) == { i \in Nodes(P) : MainDoc(i) /\ ~ViewsAgreeAt(abs, par, i) }
 
+\* The merged-text view (Context::from_text_expanded(true), the view xq / xe / XPath use): a maximal run of character
+\* data is ONE child, so the pieces of a run other than its first are not listed anywhere; for every node that IS listed,
+\* and for every container, the views must agree exactly as in the raw view.
+ViewsAgreeMerged(abs, par, i) ==
+  LET ks == abs.kids[i]
+  IN /\ abs.first[i] = (IF ks = <<>> THEN None ELSE ks[1])
+     /\ abs.last[i]  = (IF ks = <<>> THEN None ELSE ks[Len(ks)])
+     /\ abs.has[i] = (IF ks # <<>> THEN 1 ELSE 0)
+     /\ (par[i] # None /\ P.kind[i] # "attr") =>
+           LET sib == abs.kids[par[i]]
+               k   == IndexOf(sib, i)
+           IN /\ abs.par[i] = par[i]
+              /\ abs.prev[i] = (IF k = 1 THEN None ELSE sib[k - 1])
+              /\ abs.next[i] = (IF k = Len(sib) THEN None ELSE sib[k + 1])
+C12Merged(e) ==
+  IF ~Sane(e.post) THEN [v |-> "VIOLATION", why |-> "merged view: a child list mentions a node outside the pool or an accessor panicked"]
+  ELSE LET cp  == ChildPairs(P, St(e.post))
+           par == PairFn(P, cp)
+           bad == { i \in Nodes(P) : MainDoc(i) /\ ~ViewsAgreeMerged(e.post, par, i) }
+       IN  IF Cardinality({ pr[1] : pr \in cp }) # TotalLen(P, St(e.post).kids)
+           THEN [v |-> "VIOLATION", why |-> "merged view: a node is listed twice"]
+           ELSE IF bad # {} THEN [v |-> "VIOLATION", why |-> "merged view: navigation views disagree with child_nodes", nodes |-> bad]
+           ELSE [v |-> "ok"]
+
 C12Verdict(e, postTree, parPost) ==
   IF ~Sane(e.post) THEN [v |-> "VIOLATION", why |-> "a child list mentions a node outside the pool or an accessor panicked"]
   ELSE IF ~postTree THEN [v |-> "VIOLATION", why |-> "child lists do not form a tree"]
@@ -184,6 +208,8 @@ OkV == [v |-> "ok"]
 
 Verdict(e) ==
   IF e.event = "reprint" THEN [c12 |-> OkV, c13 |-> OkV, c14 |-> OkV, c07 |-> OkV, c15 |-> C15Reprint(e)]
+  ELSE IF e.event = "call" /\ "merged" \in DOMAIN e
+  THEN [c12 |-> C12Merged(e), c13 |-> OkV, c14 |-> OkV, c07 |-> OkV]
   ELSE IF e.event = "call"
   THEN LET same     == e.pre = e.post
            sanePost == Sane(e.post)
